@@ -26,6 +26,7 @@ namespace plan
     // quarantine rules of open known findings (known_findings.json): shapes the main exploration keeps away from
     bool q_undecided_relations = true; // KF-P1: x != y, ^ over relations, b == (r & r): relation literals nobody decides
     bool q_disj_polarity = true;       // KF-P2: !(a | b), b == (a | c): the disjunction flaw forces a disjunct regardless of polarity
+    bool q_empty_object_domain = true; // KF-P9: a goal/fact whose object parameter has no value at all (no instance of its class) trips an assertion of the reader
     bool q_rr_numeric = false;         // KF-P7: capacities that are expressions (a peak that only a different capacity/amount value removes is never resolved); set where negative verdicts are judged
     long quarantined = 0;
     std::map<std::string, mpq_class> planted;
@@ -990,7 +991,7 @@ namespace plan
         for (auto &in : m.insts)
           if (m.is_subclass(in.cls, p.oparam_cls))
             any = true;
-        if (!any)
+        if (!any && q_empty_object_domain)
         {
           Op io;
           io.name = "inst";
@@ -1179,8 +1180,8 @@ namespace plan
         for (auto &in : m.insts)
           if (m.is_subclass(in.cls, pc))
             any_inst = true;
-        if (!any_inst)
-          return; // the reader would reject a parameter without values
+        if (!any_inst && q_empty_object_domain)
+          return; // the reader cannot cope with a parameter without values (KF-P9)
         std::vector<const std::pair<Path, int> *> cands;
         for (auto &o : top.objs)
           if (o.first.size() == 1 && (m.is_subclass(o.second, pc) || m.is_subclass(pc, o.second)))
